@@ -947,3 +947,50 @@ def rf109(run):
                       'session-lifetime string tables are returned to the allocator while the tables still point at them; the next '
                       'c2mir_compile of the session reads freed memory (kw_add → str_exists_p)' % ' <- '.join(chain), line=g.line)
     return 1
+
+
+# ---------------------------------------------------------------------------------------------
+# RF122: interpreter data made while linking is released on every way out of MIR_link
+# ---------------------------------------------------------------------------------------------
+
+def _always_calls(s, callee):
+    if s is None:
+        return False
+    k = s['k']
+    if k == 'CallExpr' and s.get('callee') == callee:
+        return True
+    if k == 'IfStmt':
+        if len(s['c']) > 2 and s['c'][2] is not None:
+            return _always_calls(s['c'][1], callee) and _always_calls(s['c'][2], callee)
+        # a filter on the kind of the item (`if (item->item_type == MIR_func_item) …`) selects the objects the obligation is about
+        return 'item_type' in F.src(s['c'][0]) and _always_calls(s['c'][1], callee)
+    if k in ('ForStmt', 'WhileStmt', 'DoStmt'):
+        body = s['c'][-1] if k != 'DoStmt' else s['c'][0]
+        return _always_calls(body, callee)
+    if k in ('SwitchStmt', 'ConditionalOperator', 'BinaryConditionalOperator'):
+        return False
+    return any(_always_calls(c, callee) for c in F.kids(s))
+
+
+def rf122(run):
+    rule = 'RF122'
+    run.rule(rule, 'MIR_link evaluates expr data by interpreting their functions, which leaves interpreter data in func_item->data — the '
+                   'field that the next MIR_link reads as "inlining pending".  Behind the evaluation, every branch of MIR_link (interface '
+                   'given or NULL) calls finish_func_interpretation for the functions of the modules (structural: both arms of each '
+                   'branch, loop bodies counted as executed)')
+    tu = run.tu('mir')
+    f = tu.func('MIR_link')
+    run.functions_analysed.add(('mir', f.name))
+    top = F.kids(f.body)
+    idx = [i for i, s_ in enumerate(top) if any(y['k'] == 'CallExpr' and (y.get('callee') or '').startswith('MIR_interp') for y in F.walk(s_))]
+    if not idx:
+        raise F.AnalysisBroken('MIR_link: the evaluation of expr data (MIR_interp) was not found at the top level')
+    rest = top[idx[-1] + 1:]
+    ok = any(_always_calls(s_, 'finish_func_interpretation') for s_ in rest)
+    run.ob(rule, ('MIR_link',), ok, {'statements behind the evaluation': len(rest), 'released on every branch': ok})
+    if not ok:
+        run.violation(rule, f, 'interpreter data kept across MIR_link', 'behind the evaluation of expr data there is a way out of MIR_link that '
+                      'does not call finish_func_interpretation (e.g. set_interface == NULL): the interpreter data of the expr function '
+                      'stays in item->data, the next MIR_link treats it as the inlining flag, resets it and the block is never freed',
+                      line=top[idx[-1]]['l'])
+    return 1
